@@ -72,32 +72,6 @@ func vhCmp(op string, a, p interface{}) bool {
 	panic("vhCmp: op")
 }
 
-// vhBuildIndex constructs an arbitrary valid fieldIndex of n entries
-// (representation invariant: non-increasing values, id map = entries,
-// distinct ids) with `spare` unused capacity.
-func vhBuildIndex(kind string, n, spare int, unique bool) (*fieldIndex, []interface{}, []*indexedField) {
-	fd := FieldDescriptor{Path: "F", Type: kind}
-	fd.Constraints.Index = true
-	fd.Constraints.Unique = unique
-	fi := newFieldIndex(fd, 0, n+spare)
-	vals := make([]interface{}, n)
-	ents := make([]*indexedField, n)
-	for i := 0; i < n; i++ {
-		vals[i] = vhVal(kind, "v")
-		if i > 0 {
-			if unique {
-				vAssume(vhLess(vals[i], vals[i-1]))
-			} else {
-				vAssume(vNot(vhLess(vals[i-1], vals[i])))
-			}
-		}
-		ents[i] = &indexedField{Value: vals[i], ObjectId: uint64(i)}
-		fi.Index = append(fi.Index, ents[i])
-		fi.objectIds[uint64(i)] = ents[i]
-	}
-	return fi, vals, ents
-}
-
 func vhSearchOp(fi *fieldIndex, op string, p *indexedField) []*indexedField {
 	switch op {
 	case "=":
@@ -126,25 +100,3 @@ func vhCount(got []*indexedField, e *indexedField) int {
 	return n
 }
 
-// vhValidIndex asserts the representation invariant of fi against the
-// expected multiset of (value,id) pairs.
-func vhValidIndex(label string, fi *fieldIndex, wantVals []interface{}, wantIds []uint64) {
-	vAssert(label+".len", len(fi.Index) == len(wantVals))
-	vAssert(label+".idmap.len", len(fi.objectIds) == len(wantVals))
-	if len(fi.Index) != len(wantVals) {
-		return
-	}
-	for i := 1; i < len(fi.Index); i++ {
-		vAssert(label+".sorted", vNot(vhLess(fi.Index[i-1].Value, fi.Index[i].Value)))
-	}
-	for k, id := range wantIds {
-		e, ok := fi.objectIds[id]
-		vAssert(label+".idmap.has", ok)
-		if !ok {
-			continue
-		}
-		vAssert(label+".idmap.id", e.ObjectId == id)
-		vAssert(label+".idmap.val", vhEq(e.Value, wantVals[k]))
-		vAssert(label+".once", vhCount(fi.Index, e) == 1)
-	}
-}
